@@ -121,17 +121,18 @@ RECURSIVE Dedup(_)
 Dedup(s) == IF s = <<>> THEN <<>> ELSE AppendNew(Dedup(Front(s)), <<Last(s)>>)
 
 \* The abstract result of reading: what the API shows (C01 statement)
-MkView(order, lenf, tyf, propf) ==
-  LET chans == SelectSeq(order, LAMBDA p : p \in Chans)
-      declared == SelectSeq(order, LAMBDA p : p \in Groups)
-      implied == Dedup([i \in DOMAIN chans |-> GroupOf[chans[i]]])
+MkViewP(CH, GR, GO, order, lenf, tyf, propf) ==      \* parameterised by the channel set, group set and parent map
+  LET chans == SelectSeq(order, LAMBDA p : p \in CH)
+      declared == SelectSeq(order, LAMBDA p : p \in GR)
+      implied == Dedup([i \in DOMAIN chans |-> GO[chans[i]]])
       groups == AppendNew(declared, implied)
   IN [order |-> order,
       groups |-> groups,
-      gchans |-> [g \in {groups[i] : i \in DOMAIN groups} |-> SelectSeq(chans, LAMBDA c : GroupOf[c] = g)],
+      gchans |-> [g \in {groups[i] : i \in DOMAIN groups} |-> SelectSeq(chans, LAMBDA c : GO[c] = g)],
       len |-> [c \in {chans[i] : i \in DOMAIN chans} |-> lenf[c]],
       ty |-> [c \in {chans[i] : i \in DOMAIN chans} |-> tyf[c]],
       props |-> [p \in {order[i] : i \in DOMAIN order} |-> propf[p]]]
+MkView(order, lenf, tyf, propf) == MkViewP(Chans, Groups, GroupOf, order, lenf, tyf, propf)
 
 ViewOf(es) ==
   MkView(ExplOrder(es),
@@ -187,21 +188,23 @@ EncSeg(E, enc) ==
    listed |-> SelectSeq([i \in DOMAIN E.objs |->
                            [p |-> E.objs[i].p, kind |-> enc.kinds[i], n |-> E.objs[i].n,
                             ty |-> IF E.objs[i].p \in Chans THEN ty[E.objs[i].p] ELSE "none",
+                            size |-> IF E.objs[i].p \in Chans THEN E.objs[i].n * Width[ty[E.objs[i].p]] ELSE 0,
                             props |-> E.objs[i].pu]],
                         LAMBDA e : e.kind # "unlisted"),
    layout |-> [i \in DOMAIN E.objs |-> [p |-> E.objs[i].p, has |-> E.objs[i].has, n |-> E.objs[i].n,
                                         ty |-> IF E.objs[i].p \in Chans THEN ty[E.objs[i].p] ELSE "none"]]]
 
 (* ----------------------------- reader model --------------------------- *)
-\* A reader segment object (BaseSegmentObject): path, has_data, number_values, data_type ("none" if never indexed)
-RObj(p, has, n, t) == [p |-> p, has |-> has, n |-> n, ty |-> t]
+\* A reader segment object (BaseSegmentObject): path, has_data, number_values, data_type ("none" if never indexed),
+\* data_size (bytes of the object in one chunk: from the index for strings, else number_values x type size)
+RObj(p, has, n, t, sz) == [p |-> p, has |-> has, n |-> n, ty |-> t, size |-> sz]
 
 RECURSIVE FoldListed(_, _, _, _)
 FoldListed(entries, acc, basePaths, pobjs) ==       \* one step per listed object: read_segment_objects' loop
   IF entries = <<>> \/ acc.err THEN acc ELSE
   LET e == Head(entries)
       objs == acc.objs
-      full == RObj(e.p, TRUE, e.n, e.ty)
+      full == RObj(e.p, TRUE, e.n, e.ty, e.size)
       res ==
         IF e.p \in basePaths THEN                                         \* _update_existing_object
           LET i == PosOf(objs, e.p) IN
@@ -214,13 +217,12 @@ FoldListed(entries, acc, basePaths, pobjs) ==       \* one step per listed objec
             [] e.kind = "same"   -> [objs |-> Append(objs, [old EXCEPT !.has = TRUE]), err |-> FALSE]
             [] OTHER             -> [objs |-> Append(objs, full), err |-> FALSE]
         ELSE                                                              \* _new_segment_object
-          CASE e.kind = "nodata" -> [objs |-> Append(objs, RObj(e.p, FALSE, 0, "none")), err |-> FALSE]
+          CASE e.kind = "nodata" -> [objs |-> Append(objs, RObj(e.p, FALSE, 0, "none", 0)), err |-> FALSE]
             [] e.kind = "same"   -> [objs |-> objs, err |-> TRUE]         \* never seen: ValueError
             [] OTHER             -> [objs |-> Append(objs, full), err |-> FALSE]
   IN FoldListed(Tail(entries), res, basePaths, pobjs)
 
-RChunkBytes(objs) ==
-  SumSeq([i \in DOMAIN objs |-> IF objs[i].has /\ objs[i].ty # "none" THEN objs[i].n * Width[objs[i].ty] ELSE 0])
+RChunkBytes(objs) == SumSeq([i \in DOMAIN objs |-> IF objs[i].has THEN objs[i].size ELSE 0])
 
 RInterleaveErr(s, objs) ==     \* _have_interleaved_data / InterleavedDataReader.read_data_chunks
   LET d == SelectSeq(objs, LAMBDA o : o.has) IN
@@ -235,11 +237,12 @@ ApplyListedProps(pm, entries) ==
   ELSE LET e == Head(entries) IN
        ApplyListedProps([pm EXCEPT ![e.p] = ApplyUpd(@, e.props)], Tail(entries))
 
-RInit == [lists |-> <<>>, prev |-> EmptyMap, order |-> <<>>,
-          len |-> [p \in Paths |-> 0], mty |-> [p \in Paths |-> "none"],
-          props |-> [p \in Paths |-> EmptyMap], err |-> FALSE]
+RInitP(PS) == [lists |-> <<>>, prev |-> EmptyMap, order |-> <<>>,
+               len |-> [p \in PS |-> 0], mty |-> [p \in PS |-> "none"],
+               props |-> [p \in PS |-> EmptyMap], err |-> FALSE, partial |-> FALSE]
+RInit == RInitP(Paths)
 
-ReadSeg(st, s) ==
+ReadSegP(PS, st, s) ==       \* PS: the set of object paths of the file
   IF st.err THEN st ELSE
   LET nprev == Len(st.lists)
       lst == IF ~s.meta
@@ -255,19 +258,24 @@ ReadSeg(st, s) ==
       typeErr == \E i \in DOMAIN objs :                                              \* _update_object_data_type
                     st.mty[objs[i].p] # "none" /\ st.mty[objs[i].p] # objs[i].ty
       ps == [i \in DOMAIN objs |-> objs[i].p]
-  IN IF chunkErr \/ typeErr \/ RInterleaveErr(s, objs) THEN [st EXCEPT !.err = TRUE] ELSE
+  IN IF chunkErr \/ typeErr \/ RInterleaveErr(s, objs)
+     THEN [st EXCEPT !.err = TRUE, !.partial = (cb # 0 /\ s.bytes % cb # 0)]      \* partial final chunk: TdmsTruncate's subject
+     ELSE
      [lists |-> Append(st.lists, objs),
       prev  |-> [p \in DOMAIN st.prev \cup PathsIn(objs) |->
                    IF p \in PathsIn(objs) THEN objs[PosOf(objs, p)] ELSE st.prev[p]],
       order |-> AppendNew(st.order, ps),
-      len   |-> [p \in Paths |-> st.len[p] + (IF p \in PathsIn(objs) /\ objs[PosOf(objs, p)].has
-                                                THEN objs[PosOf(objs, p)].n * k ELSE 0)],
-      mty   |-> [p \in Paths |-> IF p \in PathsIn(objs) THEN objs[PosOf(objs, p)].ty ELSE st.mty[p]],
+      len   |-> [p \in PS |-> st.len[p] + (IF p \in PathsIn(objs) /\ objs[PosOf(objs, p)].has
+                                             THEN objs[PosOf(objs, p)].n * k ELSE 0)],
+      mty   |-> [p \in PS |-> IF p \in PathsIn(objs) THEN objs[PosOf(objs, p)].ty ELSE st.mty[p]],
       props |-> IF s.meta THEN ApplyListedProps(st.props, s.listed) ELSE st.props,
-      err   |-> FALSE]
+      err   |-> FALSE, partial |-> FALSE]
 
-RECURSIVE ReadFile(_)
-ReadFile(f) == IF f = <<>> THEN RInit ELSE ReadSeg(ReadFile(Front(f)), Last(f))
+ReadSeg(st, s) == ReadSegP(Paths, st, s)
+
+RECURSIVE ReadFileP(_, _)
+ReadFileP(PS, f) == IF f = <<>> THEN RInitP(PS) ELSE ReadSegP(PS, ReadFileP(PS, Front(f)), Last(f))
+ReadFile(f) == ReadFileP(Paths, f)
 
 ReaderView(st) == MkView(st.order, st.len, st.mty, st.props)
 
@@ -299,13 +307,13 @@ AppendForbidden ==
         /\ file' = <<BadSeg(<<>>, <<>>, FALSE, 0, 0)>>
      \/ /\ "same-unseen" \in Forbidden
         /\ \E c \in Chans : ~Seen(c) /\ \E nl \in BOOLEAN :
-             file' = Append(file, [BadSeg(<<[p |-> c, kind |-> "same", n |-> 0, ty |-> ty[c], props |-> <<>>]>>,
+             file' = Append(file, [BadSeg(<<[p |-> c, kind |-> "same", n |-> 0, ty |-> ty[c], size |-> 0, props |-> <<>>]>>,
                                           <<>>, TRUE, 0, 0) EXCEPT !.newList = nl])
      \/ /\ "type-change" \in Forbidden
         /\ \E c \in Chans : \E t \in TypeSet \ {ty[c]} :
              /\ ExplTyped(expl, c)
              /\ \E n \in NVals \ {0} :
-                file' = Append(file, [BadSeg(<<[p |-> c, kind |-> "full", n |-> n, ty |-> t, props |-> <<>>]>>,
+                file' = Append(file, [BadSeg(<<[p |-> c, kind |-> "full", n |-> n, ty |-> t, size |-> n * Width[t], props |-> <<>>]>>,
                                              <<[p |-> c, has |-> TRUE, n |-> n, ty |-> t]>>, TRUE, 1, n * Width[t])
                                       EXCEPT !.newList = TRUE])
   /\ status' = "rejected"
